@@ -165,6 +165,9 @@ func registerModels2(e *Engine) {
 		f := wgCtr(a[0])
 		cur := rawGet(st, f).(*Term)
 		if !cur.IsConst() || cur.c != 0 {
+			if e.runPending(st) {
+				return pushedMarker // a queued goroutine runs first; Wait is retried
+			}
 			abort("unsupported", "WaitGroup.Wait that would block in the sequentialised goroutine model")
 		}
 		e.atomicEvent(st, f)
